@@ -178,7 +178,8 @@ def doRt (d : DState) (toks : List String) : Option String :=
   | [rt, meth, ct, hdr, dec, idx, nsub, failAt, ord, facts, attenv, items] => do
     let rt ← Route.all.find? (·.name == rt)
     let ct ← parseCt ct
-    let hdr := if hdr == "-" then "" else hdr
+    let hdr := if hdr == "-" then [] else hdr.toList
+    let meth := if meth == "POST" then Method.post else Method.other
     let (body, opq) ← parseDec dec items
     let idx ← idx.toInt?
     let nsub ← nsub.toNat?
